@@ -137,6 +137,13 @@ Definition is_none {A} (x : option A) : bool := match x with None => true | Some
 (* a.get(k) or b[k]  on dicts of entries (every Entry object is truthy) *)
 Definition py_get_or {V} (k1 : pystr) (a : sdict V) (k2 : pystr) (b : sdict V) : option V :=
   match sdict_get k1 a with Some v => Some v | None => sdict_get k2 b end.
+(* s.startswith(p) *)
+Fixpoint str_prefixb (p s : pystr) : bool :=
+  match p, s with
+  | [], _ => true
+  | a :: p', b :: s' => (a =? b) && str_prefixb p' s'
+  | _ :: _, [] => false
+  end.
 Definition py_index0 {A} (l : list A) : option A := match l with x :: _ => Some x | [] => None end.
 Definition opt_test {A} (f : A -> bool) (x : option A) : bool := match x with Some a => f a | None => false end.
 
